@@ -51,10 +51,11 @@ Record fstate : Type := mkF {
   nextp : nat;                                     (* proxy objects created so far *)
   earlymade : list ((name * name) * nat);          (* (processor, component) -> proxy it made as early reference *)
   active : list name;                              (* componentPostProcessors, in invocation order *)
-  log : list event                                 (* newest first *)
+  log : list event;                                (* newest first *)
+  scanned : bool                                   (* definitions registered (PrepareComponents reached scanning) *)
 }.
 
-Definition finit : fstate := mkF rinit [] [] [] 0 [] [] [].
+Definition finit : fstate := mkF rinit [] [] [] 0 [] [] [] false.
 
 Inductive failkind : Type :=
 | FErr (e : err)     (* an error value travels up to Run / GetComponentByName *)
@@ -71,13 +72,15 @@ Arguments Fail {A} k st.
 (* ---- small state updates ------------------------------------------------------------------------- *)
 
 Definition set_reg (st : fstate) (r : rstate) : fstate :=
-  mkF r (flds st) (deps st) (injs st) (nextp st) (earlymade st) (active st) (log st).
+  mkF r (flds st) (deps st) (injs st) (nextp st) (earlymade st) (active st) (log st) (scanned st).
 Definition add_log (st : fstate) (e : event) : fstate :=
-  mkF (reg st) (flds st) (deps st) (injs st) (nextp st) (earlymade st) (active st) (e :: log st).
+  mkF (reg st) (flds st) (deps st) (injs st) (nextp st) (earlymade st) (active st) (e :: log st) (scanned st).
 Definition set_injs (st : fstate) (h : name) (i : list (list (option name))) : fstate :=
-  mkF (reg st) (flds st) (deps st) (aset h i (injs st)) (nextp st) (earlymade st) (active st) (log st).
+  mkF (reg st) (flds st) (deps st) (aset h i (injs st)) (nextp st) (earlymade st) (active st) (log st) (scanned st).
+Definition set_scanned (st : fstate) : fstate :=
+  mkF (reg st) (flds st) (deps st) (injs st) (nextp st) (earlymade st) (active st) (log st) true.
 Definition set_active (st : fstate) (a : list name) : fstate :=
-  mkF (reg st) (flds st) (deps st) (injs st) (nextp st) (earlymade st) a (log st).
+  mkF (reg st) (flds st) (deps st) (injs st) (nextp st) (earlymade st) a (log st) (scanned st).
 
 Definition key_eqb (a b : name * nat) : bool := Nat.eqb (fst a) (fst b) && Nat.eqb (snd a) (snd b).
 
@@ -101,14 +104,14 @@ Definition add_dep (d : list (name * list name)) (n h : name) : list (name * lis
 Definition write_field (st : fstate) (h : name) (k : nat) (vs : list ver) : fstate :=
   mkF (reg st) (((h, k), vs) :: flds st)
       (fold_left (fun d v => add_dep d (owner v) h) vs (deps st))
-      (injs st) (nextp st) (earlymade st) (active st) (log st).
+      (injs st) (nextp st) (earlymade st) (active st) (log st) (scanned st).
 
 Definition new_proxy (st : fstate) (n : name) : fstate * ver :=
-  (mkF (reg st) (flds st) (deps st) (injs st) (S (nextp st)) (earlymade st) (active st) (log st),
+  (mkF (reg st) (flds st) (deps st) (injs st) (S (nextp st)) (earlymade st) (active st) (log st) (scanned st),
    VProxy n (nextp st)).
 
 Definition note_early (st : fstate) (p c : name) (k : nat) : fstate :=
-  mkF (reg st) (flds st) (deps st) (injs st) (nextp st) (((p, c), k) :: earlymade st) (active st) (log st).
+  mkF (reg st) (flds st) (deps st) (injs st) (nextp st) (((p, c), k) :: earlymade st) (active st) (log st) (scanned st).
 
 (* ---- processors ------------------------------------------------------------------------------------ *)
 
@@ -396,10 +399,12 @@ Section WithRec.
 
   (* createComponent (:164-188); generated processors never short-circuit instantiation *)
   Definition create (st : fstate) (n : name) : res (fstate * ver) :=
-    match get_comp (s_pop s) n with
-    | None => Fail (FErr ENoDef) st
-    | Some c => do_create st n c
-    end.
+    if scanned st then
+      match get_comp (s_pop s) n with
+      | None => Fail (FErr ENoDef) st
+      | Some c => do_create st n c
+      end
+    else Fail (FErr ENoDef) st.
 
   (* doGetComponent (:140-162) + GetSingletonOrCreateByFactory (registry :76-91) *)
   Definition body (st : fstate) (n : name) : res (fstate * ver) :=
